@@ -975,7 +975,7 @@ def check_C31(res):
     path = tr(f"C31-reload-{res.seed}.ndjson")
     scratch = os.path.join(OUT, "reload")
     t = time.time()
-    r = subprocess.run([sys.executable, os.path.join(ROOT, "tools", "reload_driver.py"), daemon, path, str(res.seed), str(8 if q else 150), scratch],
+    r = subprocess.run([sys.executable, os.path.join(ROOT, "tools", "reload_driver.py"), daemon, path, str(res.seed), str(5 if q else 100), scratch],
                        capture_output=True, text=True, timeout=7200)
     if r.returncode != 0:
         raise ToolError("reload driver failed:\n" + r.stderr[-3000:])
@@ -984,6 +984,27 @@ def check_C31(res):
     res.add_trace("reload", v, path, own_tags=["C31"])
     if res.tier == "thorough" or os.environ.get("VERIF_NEGCTL"):
         negative_control(res, "reload", path, "TraceReload", ("Reset",))
+    os.remove(path)
+    # (G) histories of the MC_Reload state graph (configuration order x which files load, up to three reloads) carried out
+    # on the running daemon: every k-th transition, k chosen so that 5 (thorough: about 80) histories are replayed
+    hist, nh = graph_histories(res, "MC_Reload/graph", "MCR.tla", "MCR_fixed.cfg", stride=1)
+    lines = open(hist).read().splitlines()
+    want = 5 if q else 80
+    step = max(1, len(lines) // want)
+    pick = lines[(res.seed * 7) % step::step][:want]
+    with open(hist, "w") as f:
+        f.write("\n".join(pick) + "\n")
+    path = tr(f"C31-reload-graph-{res.seed}.ndjson")
+    t = time.time()
+    r = subprocess.run([sys.executable, os.path.join(ROOT, "tools", "reload_driver.py"), daemon, path, str(res.seed), str(len(pick)), scratch, hist],
+                       capture_output=True, text=True, timeout=7200)
+    os.remove(hist)
+    if r.returncode != 0:
+        raise ToolError("reload driver (graph histories) failed:\n" + r.stderr[-3000:])
+    log(f"[drive] reload_driver (graph histories): {sum(1 for _ in open(path))} records ({time.time() - t:.1f}s)")
+    v = validate_trace(path, "TraceReload.tla", "TraceReload.cfg", session_start=("Reset",))
+    res.add_trace("reload/graph-replay", v, path, own_tags=["C31"])
+    res.notes["reload/graph-replay"]["histories_replayed"] = len(pick)
     os.remove(path)
     res.assumptions += ["zone-file modification times are set explicitly and increase with every edit (the daemon's unchanged-file shortcut compares mtimes)",
                         "a sentinel zone whose TXT record carries the step number tells the driver when a reload has taken effect; a reload not visible after 60 s is a rejected step"]
